@@ -86,6 +86,7 @@ inductive Site
   -- contract/enterprise/config.go, admin.go
   | cRpcSplit       -- Conf.Validate  strings.Split(v, ":")[1]
   | gAdmins         -- getAdmins      data[i : i+types.AddressLength]
+  | cDeser0         -- deserializeConf data[0]   (getConf guards only `data == nil`: a stored EMPTY record would panic)
   -- contract/enterprise/execute.go
   | xCtx0           -- ExecuteEnterpriseTx  context.Args[0]
   | xEnable1        -- ExecuteEnterpriseTx  context.Call.Args[1]
@@ -298,6 +299,8 @@ structure Env where
   senderInAdmins : Bool        -- bytes.Index(bytes.Join(admins, nil), sender) ≠ -1
   confKey : Option Conf        -- getConf(scs, Args[0])
   confWhite : Option Conf      -- getConf(scs, "ACCOUNTWHITE")
+  confKeyEmpty : Bool := false   -- the record stored for Args[0] is non-nil and EMPTY (what SetData(key, nil) leaves after a commit)
+  confWhiteEmpty : Bool := false -- the same for ACCOUNTWHITE
   ccPeerOk : Bool              -- types.IDB58Decode(peerid) == nil
   ccAddrOk : Bool              -- types.ParseMultiaddr(address) == nil
   ccIdOk : Bool                -- strconv.ParseUint(id, 16, 64) == nil
@@ -794,6 +797,14 @@ def hasValue (c : Option Conf) (v : Str) : Bool :=
   | some c => c.values.contains v
   | none => false
 
+/-- `enterprise.serializeConf`: the bytes `setConf` stores — the on/off flag, then every value behind a backslash. -/
+def serConf (c : Conf) : List Nat := (if c.on then 1 else 0) :: c.values.flatMap fun v => 92 :: encodeUtf8 v
+
+/-- `getConf` → `deserializeConf(data)`: `data == nil` is tested, `data[0]` is then read. `emptyRec`: the stored record is
+non-nil with length 0 (no writer produces it: `Props.C14.serializeConf_nonempty`; `SetData(key, nil)` would after a commit). -/
+def confRead (emptyRec : Bool) : Outcome Unit :=
+  if emptyRec then idx .cDeser0 ([] : List Nat) 0 >>= fun _ => .ok () else .ok ()
+
 /-- `getAdmins` + `checkAdmin`. `allowUnset`: the caller tolerates ErrTxEnterpriseAdminIsNotSet. -/
 def checkAdmin (e : Env) (allowUnset : Bool) : Outcome Unit :=
   if !e.adminsReadable then .panic .gAdmins
@@ -890,6 +901,7 @@ def adminState (e : Env) (ci : CallInfo) (arg : Str) (address : List Nat) : Outc
     rejectIf (e.admins.contains address) .state
   else do
     rejectIf (!e.admins.contains address) .state
+    confRead e.confWhiteEmpty
     match e.confWhite with
     | some c => rejectIf (c.on && c.values.contains arg) .state
     | none => .ok ()
@@ -945,6 +957,7 @@ def entSetConf (u : List Site) (e : Env) (ci : CallInfo) : Outcome EntCtx := do
   let key ← idx .eCtx0 ctxArgs 0
   checkAdmin e false
   let vals ← sliceFrom .eCtxTail ctxArgs 1
+  confRead e.confKeyEmpty                      -- setConfValues → getConf
   let _ ← idx .eCtx0 ctxArgs 0
   validateStored e key (newConfOf e vals)
   pure { ci, args := ctxArgs }
@@ -955,6 +968,7 @@ def entModConf (u : List Site) (e : Env) (ci : CallInfo) : Outcome EntCtx := do
   let ctxArgs ← checkArgs u e ci
   checkAdmin e false
   let key ← idx .eCtx0 ctxArgs 0
+  confRead e.confKeyEmpty                      -- getConf
   let v ← idx .eCtx1 ctxArgs 1
   let conf' ← modConf ci (storedOr e) v
   confValidate e key conf' (some conf')
@@ -964,6 +978,7 @@ def entModConf (u : List Site) (e : Env) (ci : CallInfo) : Outcome EntCtx := do
 def entEnableVal (e : Env) (ci : CallInfo) (arg0 : Str) : JVal → Outcome EntCtx
   | .bool value => do
     checkAdmin e false
+    confRead e.confKeyEmpty                    -- enableConf → getConf
     confValidate e arg0 (enabledConf e value) (some (enabledConf e value))
     pure { ci, args := [arg0] }
   | _ => .reject .args
@@ -1147,7 +1162,7 @@ def openOps : List (String × Nat × OpClass) := [
   ("contract/enterprise/config.go:Conf.RemoveValue:slice:<*Conf>.Values[:i]", 1, bounded "i is the range index of c.Values"),
   ("contract/enterprise/config.go:Conf.RemoveValue:slice:<*Conf>.Values[i+1:]", 1, bounded "i is the range index of c.Values"),
   ("contract/enterprise/config.go:Conf.Validate:index:strings.Split(v, \":\")[1]", 1, trap [cRpcSplit]),
-  ("contract/enterprise/config.go:deserializeConf:index:<[]byte>[0]", 1, stored "written by serializeConf (first byte = on flag); nil data is tested before"),
+  ("contract/enterprise/config.go:deserializeConf:index:<[]byte>[0]", 1, trap [cDeser0]),
   ("contract/enterprise/config.go:deserializeConf:slice:strings.Split(string(<[]byte>), \"\\\\\")[1:]", 1, lib "strings.Split returns at least one element"),
   ("contract/enterprise/execute.go:ExecuteEnterpriseTx:index:context.ArgsAny[0]", 1, trap [xAny0]),
   ("contract/enterprise/execute.go:ExecuteEnterpriseTx:index:context.Args[0]", 6, trap [xCtx0]),
@@ -1257,7 +1272,16 @@ open Site in
 /-- All constructors of `Site`. -/
 def allSites : List Site := [tNameUpdTo, tNameOwner0, tNameCommon0, sParseId0, sCandSlice, vDaoSlice, vDaoId, vDaoVal, vBpCand,
   rAddSlice, rSubNil, nVal0, nExCreate0, nExUpd0, nExUpd1, nExOwner0, eAdmin0, eEnable0, eEnable1, eCtx0, eCtxTail, eCtx1,
-  eCheckArgs0, eRpcVals0, eCc0, cRpcSplit, gAdmins, xCtx0, xEnable1, xAny0, rSyncTop, rThreshDiv, tLessSlice, fCalcGas, pFdRsp]
+  eCheckArgs0, eRpcVals0, eCc0, cRpcSplit, gAdmins, cDeser0, xCtx0, xEnable1, xAny0, rSyncTop, rThreshDiv, tLessSlice, fCalcGas, pFdRsp]
+
+/-- The encoder / reader / writer of enterprise configuration records as the model transcribes them (`serConf`,
+`confRead`): `deserializeConf` reads `data[0]` behind a `data == nil` test only, so an EMPTY stored record must be
+impossible — `setConf` stores what `serializeConf` returns, and that always starts with the on/off byte. -/
+def knownShapes : List (String × List String) := [
+  ("contract/enterprise/config.go:serializeConf", ["var ret []byte", "if c.On { ret = append(ret, 1) } else { ret = append(ret, 0) }", "for _, v := range c.Values { ret = append(ret, '\\\\') ret = append(ret, []byte(v)...) }", "return ret"]),
+  ("contract/enterprise/config.go:getConf", ["data, err := scs.GetData(dbkey.EnterpriseConf(key))", "if err != nil || data == nil { return nil, err }", "return deserializeConf(data), err"]),
+  ("contract/enterprise/config.go:setConf", ["return scs.SetData(dbkey.EnterpriseConf(key), serializeConf(conf))"])
+]
 
 /-- The dispatch points of the current source (command names, system operations, transaction types, recipients):
 `(file:func:switch tag, sorted case labels)`.  The model's `typesValidate`, `senderType`, `poolOther`, `typesName`,
